@@ -6,7 +6,7 @@ C17 — model of utype's forward-reference machinery.
   ParserField.generate (string annotation → ForwardRef) utype/parser/field.py:1134-1147, 1306-1314
   BaseParser.resolve_forward_refs (lazy, first parse)  utype/parser/base.py:211-268, 342-345
   ClassParser.globals (self name injection)            utype/parser/cls.py:93-112
-  ClassParser.resolve_forward_refs / generate_from_bases utype/parser/cls.py:223-275 (one level)
+  ClassParser.resolve_forward_refs / generate_from_bases utype/parser/cls.py:223-275 (any depth, several bases)
   ForwardRef dereference at conversion time            utype/utils/transform.py:696-719
 
 Hand-written, branch for branch, after the three `fix:` patches fixes/C17-*.patch (the behaviour
@@ -132,7 +132,7 @@ structure PState where
   isLocal   : Bool         -- `<locals>` in the qualname: force_clear / clear_refs (base.py:84,249,261-267)
   ignoreErr : Bool         -- functions resolve with ignore_errors=True (func.py:942)
   selfVis   : Bool         -- ClassParser.globals injects the class's own name (cls.py:93-112)
-  base      : Option Name  -- the data class it inherits its first fields from (cls.py:223-257)
+  bases     : List Name    -- the data classes it inherits fields from, as written (cls.py:223-257)
   deriving Repr
 
 structure State where
@@ -258,7 +258,7 @@ structure Decl where
   isLocal : Bool := false     -- defined inside a function (qualname contains `<locals>`)
   bound   : Bool := true      -- the name is (re)bound in the module namespace after creation
   isFunc  : Bool := false     -- @utype.parse function: field 0 = parameter, field 1 = return
-  base    : Option Name := none   -- `class K(Base)`: Base's fields come first (shared ParserField objects)
+  bases   : List Name := []       -- `class K(B1, B2)`: inherited fields first (shared ParserField objects)
   deriving Repr
 
 def mkFields (cells : List (Cell × Ty)) (vis : Name → Bool) (isFunc : Bool)
@@ -276,7 +276,7 @@ def define (cfg : Cfg) (s : State) (k : Name) (d : Decl) : State :=
   let vis := visOf s self
   let (fields, ev, rg) := mkFields s.cells vis d.isFunc d.fields
   let ps : PState := { fields := fields, pending := registerAll cfg [] rg, isLocal := d.isLocal,
-                       ignoreErr := d.isFunc, selfVis := !d.isFunc, base := d.base }
+                       ignoreErr := d.isFunc, selfVis := !d.isFunc, bases := d.bases }
   { visible := if d.bound then k :: s.visible else s.visible
     -- force_clear (rule.py:74-76): a local class un-evaluates what it has just evaluated
     cells := if d.isLocal then s.cells else ev.reverse ++ s.cells
@@ -323,10 +323,31 @@ def resolveLoop (vis : Name → Bool) (ignoreErr : Bool) : List Pending → List
       { r with kept := p :: r.kept }
     else ⟨p :: ps, cells, false, [], true⟩      -- NameError propagates, nothing after the loop runs
 
+/-- The parsers `ClassParser.resolve_forward_refs` visits for `k`, in visiting order: for every base its
+own walk, then `k` (cls.py:259-272); each visited parser comes with the ancestors found by its own
+walk (whose ParserField objects it shares).  The recursion follows `bases` by name; `fuel` = number
+of parsers suffices (a base exists before its subclass) and the specification's walk up the bases
+is bounded by the same fuel. -/
+def chainF : Nat → List (Name × PState) → Name → List (Name × List Name)
+  | 0, _, k => [(k, [])]
+  | n + 1, ps, k =>
+    let sub := match lookupP k ps with
+      | none => []
+      | some p => p.bases.flatMap (chainF n ps)
+    sub ++ [(k, sub.map (·.1))]
+
+/-- the field pass of a subclass also runs over the ParserField objects it shares with its ancestors -/
+def passAnc (f : Ty → Ty) : List Name → List (Name × PState) → List (Name × PState)
+  | [], ps => ps
+  | a :: as, ps =>
+    match lookupP a ps with
+    | none => passAnc f as ps
+    | some pa => passAnc f as (setP a { pa with fields := pa.fields.map (fun p => (p.1, f p.2)) } ps)
+
 /-- `BaseParser.resolve_forward_refs` for parser `k` alone; `false` = NameError raised.  The field
 pass (base.py:256-258) runs over `self.fields`, which for a subclass includes the ParserField objects
-it shares with its base. -/
-def resolveOwn (cfg : Cfg) (s : State) (k : Name) : State × Bool :=
+it shares with its ancestors. -/
+def resolveOwn (cfg : Cfg) (s : State) (k : Name) (ancs : List Name) : State × Bool :=
   match lookupP k s.parsers with
   | none => (s, true)
   | some ps =>
@@ -338,41 +359,42 @@ def resolveOwn (cfg : Cfg) (s : State) (k : Name) : State × Bool :=
       else
         let fields := if r.resolved then ps.fields.map (fun p => (p.1, resolveTy cfg r.cells p.2)) else ps.fields
         let parsers1 := setP k { ps with pending := r.kept, fields := fields } s.parsers
-        let parsers2 := match ps.base with
-          | none => parsers1
-          | some b => match lookupP b parsers1 with
-            | none => parsers1
-            | some pb =>
-              if r.resolved then
-                setP b { pb with fields := pb.fields.map (fun p => (p.1, resolveTy cfg r.cells p.2)) } parsers1
-              else parsers1
+        let parsers2 := if r.resolved then
+            passAnc (resolveTy cfg r.cells) ancs parsers1
+          else parsers1
         -- ForwardRef objects of local classes are un-evaluated again (base.py:261-267)
         let cells := if ps.isLocal then r.cells.filter (fun p => !r.popped.contains p.1) else r.cells
         ({ s with cells := cells, parsers := parsers2 }, true)
 
-/-- `ClassParser.resolve_forward_refs` (cls.py, after fixes/C17-inherited-refs.patch): the base's
-parser first, then the class's own.  (Modelled for one level: a base that has a base itself is
-outside the fragment, `Reaches` says so.) -/
-def resolveParser (cfg : Cfg) (s : State) (k : Name) : State × Bool :=
-  match lookupP k s.parsers with
-  | none => (s, true)
-  | some ps =>
-    match ps.base with
-    | none => resolveOwn cfg s k
-    | some b =>
-      if cfg.inheritRefs then
-        match resolveOwn cfg s b with
-        | (s1, false) => (s1, false)
-        | (s1, true) => resolveOwn cfg s1 k
-      else resolveOwn cfg s k
+def resolveChain (cfg : Cfg) : State → List (Name × List Name) → State × Bool
+  | s, [] => (s, true)
+  | s, n :: ns =>
+    match resolveOwn cfg s n.1 n.2 with
+    | (s1, false) => (s1, false)          -- NameError in a base's parser propagates
+    | (s1, true) => resolveChain cfg s1 ns
 
-/-- `self.fields` of a class: the base's fields (cls.py:232-252), then its own -/
-def allFields (parsers : List (Name × PState)) (ps : PState) : List (Nat × Ty) :=
-  (match ps.base with
-   | none => []
-   | some b => match lookupP b parsers with
-     | none => []
-     | some pb => pb.fields) ++ ps.fields
+/-- `ClassParser.resolve_forward_refs` (cls.py, after fixes/C17-inherited-refs.patch): every base's
+parser first (recursively), then the class's own. -/
+def resolveParser (cfg : Cfg) (s : State) (k : Name) : State × Bool :=
+  if cfg.inheritRefs then resolveChain cfg s (chainF s.parsers.length s.parsers k)
+  -- before the fix only the class's own registry was looked at (its field pass still ran over all fields)
+  else resolveOwn cfg s k ((chainF s.parsers.length s.parsers k).flatMap (·.2))
+
+/-- `dict.update`: an existing key keeps its position and takes the new value -/
+def dictPut (kv : Nat × Ty) : List (Nat × Ty) → List (Nat × Ty)
+  | [] => [kv]
+  | (k, v) :: rest => if k == kv.1 then (k, kv.2) :: rest else (k, v) :: dictPut kv rest
+
+def dictMerge (l : List (Nat × Ty)) : List (Nat × Ty) := l.foldl (fun acc kv => dictPut kv acc) []
+
+/-- `self.fields` of a class: `for base in reversed(bases): fields.update(parser.fields)`, then its own
+(cls.py:232-252, 205-221) -/
+def allFieldsF : Nat → List (Name × PState) → Name → List (Nat × Ty)
+  | 0, ps, k => (match lookupP k ps with | none => [] | some p => p.fields)
+  | n + 1, ps, k =>
+    match lookupP k ps with
+    | none => []
+    | some p => dictMerge (p.bases.reverse.flatMap (allFieldsF n ps) ++ p.fields)
 
 /-! ### Parsing (state is threaded: converting to a data class triggers *its* lazy resolution) -/
 
@@ -469,8 +491,9 @@ def parseTy (cfg : Cfg) (leaf : Val → Option Val) : Nat → State → Ty → V
             | (s1, true) =>
               match lookupP k s1.parsers with
               | none => (s1, .perr)
-              | some ps =>
-                match fieldsS (fun s t x => parseTy cfg leaf fuel s t x) kvs s1 (allFields s1.parsers ps) with
+              | some _ =>
+                match fieldsS (fun s t x => parseTy cfg leaf fuel s t x) kvs s1
+                    (allFieldsF s1.parsers.length s1.parsers k) with
                 | (s2, .inr fs) => (s2, .ok (.inst k fs))
                 | (s2, .inl e) => (s2, e)
         | _ => (s, .perr)
@@ -569,16 +592,18 @@ def lookupD (k : Name) : List (Name × Decl) → Option Decl
   | [] => none
   | (k', d) :: rest => if k' == k then some d else lookupD k rest
 
-/-- the declarations made so far, every reference read directly -/
-def directFields (defs : List (Name × Decl)) (d : Decl) : List (Nat × Ty) :=
-  (match d.base with
-   | none => []
-   | some b => match lookupD b defs with
-     | none => []
-     | some db => db.fields.map fun p => (p.1, p.2.direct)) ++ d.fields.map fun p => (p.1, p.2.direct)
+/-- the fields of a declaration, inherited ones first, every reference read directly; the walk up the
+bases is bounded by the number of declarations -/
+def directFieldsF : Nat → List (Name × Decl) → Name → List (Nat × Ty)
+  | 0, defs, k => (match lookupD k defs with | none => [] | some d => d.fields.map fun p => (p.1, p.2.direct))
+  | n + 1, defs, k =>
+    match lookupD k defs with
+    | none => []
+    | some d => dictMerge (d.bases.reverse.flatMap (directFieldsF n defs) ++ d.fields.map fun p => (p.1, p.2.direct))
 
+/-- the declarations made so far, every reference read directly -/
 def envOf (defs : List (Name × Decl)) : Env :=
-  fun k => (lookupD k defs).map (directFields defs)
+  fun k => (lookupD k defs).map fun _ => directFieldsF defs.length defs k
 
 def specRun (leaf : Val → Option Val) (fuel : Nat) : List (Name × Decl) → List Op → List Outcome
   | _, [] => []
